@@ -1,4 +1,4 @@
-SERVED = ["C01", "C03", "C05", "C06", "C07", "C08", "C10", "C15", "C13", "C14", "C16", "C17", "C18", "C19", "C20"]
+SERVED = ["C01", "C03", "C05", "C06", "C07", "C08", "C10", "C12", "C15", "C13", "C14", "C16", "C17", "C18", "C19", "C20"]
 HOOKS = {
     "guard": "PSYCHEC_VERIF",
     "enable": "harness/Makefile compiles /repo's sources with -DPSYCHEC_VERIF into /verif/.cache/build-<flavour>/; "
@@ -44,6 +44,18 @@ CHECKS = {
                 "(citations per row); extraction (ExtrOcamlBasic); harness. Modelled not verified: lexIdentifier passing exactly the word to recognize/translate. "
                 "Print Assumptions: closed under the global context.",
         "technique": "Coq proof by verified symbolic checker (reflection, vm_compute) on a model regenerated from the source + translation validation",
+    },
+    "C12": {
+        "text": "PARTIAL. Theorems about the model of TypedefNameTypeResolver::resolve over type terms, for EVERY environment of typedef declarations (any number, any chain length, any nesting of pointer/array/"
+                "function/qualified types, names redeclared any number of times) and every type: C12_resolve_is_denotation — the resolver terminates and returns exactly what the chain denotes; "
+                "C12_resolved_is_typedef_free; C12_derivations_preserved; C12_qualifiers_preserved — the top-level qualifiers of the result are the union of those written along the chain of names; "
+                "C12_most_recent_declaration — the latest visible declaration of a name is the one used.  Decided by correspondence only: which declaration the canonicaliser binds a name to (block scoping), "
+                "tag references, in-place mutation and sharing of type objects, pointer identity of basic types and void with the compilation's canonical objects — on generated complete programs "
+                "(typedef chains up to 200/1000 long, derivations, qualifiers, shadowing in nested blocks, structs) against a reference interpreter, with the extracted Coq resolver run on every typedef's environment.",
+        "design_ref": "DESIGN.md section 6, C12",
+        "note": "Trusted: Coq kernel; hand-written model C12Model.v (immutable terms, well-scoped environments: a typedef sees only earlier ones, so the cycles of incomplete code are outside it); reference interpreter "
+                "gen/tdprog.py; extraction; harness. Not observed: typedef names in casts/sizeof. Print Assumptions: closed under the global context.",
+        "technique": "Coq proof by induction on fuel/type structure (nested induction principle) against a denotational specification + correspondence with a reference interpreter on generated programs",
     },
     "C13": {
         "text": "Theorems over the conversion functions as regenerated from TypeChecker.cpp on this run (IR + interpreter): C13_binary_types — for all 13 operators "
